@@ -6,6 +6,7 @@ import (
 	"os"
 	"path/filepath"
 	"strings"
+	"sync"
 	"time"
 
 	"github.com/tonistiigi/fsutil"
@@ -34,6 +35,25 @@ type faultInput struct {
 
 type opCounts struct {
 	SSend, SRecv, RSend, RRecv, Walks, Opens, Hasher, Notify int
+}
+
+var snapCache sync.Map
+
+// cachedSnapshot: the paths and types of a (read-only) source directory, computed once.
+func cachedSnapshot(dir string) ([]vt.Ev, error) {
+	if v, ok := snapCache.Load(dir); ok {
+		return v.([]vt.Ev), nil
+	}
+	t, err := disk.Snapshot(dir, false)
+	if err != nil {
+		return nil, err
+	}
+	out := make([]vt.Ev, len(t))
+	for i := range t {
+		out[i] = vt.Ev{"p": vt.P(t[i].Path), "t": t[i].Type}
+	}
+	snapCache.Store(dir, out)
+	return out, nil
 }
 
 // runFault runs one (possibly faulty) transfer and then a fault-free
@@ -69,9 +89,13 @@ func runFault(c *Ctx, caseNo int, in faultInput, srcDir string) ([]vt.Ev, *SyncR
 			connRef.Log(vt.Ev{"ev": "Fault", "ep": "S", "op": kind, "k": k})
 		}
 	}}
+	srcFull, err := cachedSnapshot(src)
+	if err != nil {
+		return nil, nil, cnt, err
+	}
 	o := SyncOpts{Mode: "dirty", Differ: "metadata", CapS2R: in.CapS, CapR2S: in.CapR, SrcFS: ffs, Quiet: in.Quiet,
 		Timeout: 2500 * time.Millisecond, CbDelay: time.Duration(in.CbDelayMS) * time.Millisecond,
-		Extra: vt.Ev{"input": vt.Opaque(in), "origin": in.Scenario, "fault": in.Kind, "k": in.K}}
+		Extra: vt.Ev{"input": vt.Opaque(in), "origin": in.Scenario, "fault": in.Kind, "k": in.K, "srcFull": srcFull}}
 	if in.SlowData > 0 {
 		d := time.Duration(in.SlowData) * time.Microsecond
 		o.Gate = func(ep, op string, k int) {
@@ -196,10 +220,21 @@ func faultScenarios(c *Ctx) []faultInput {
 	for k := 0; k < 320; k++ {
 		dirFirst = append(dirFirst, mk(fmt.Sprintf("f%04d", k), 1, int64(700+k)))
 	}
+	// a view that needs no file content at all (directories, symlinks, empty files): a transfer cut short anywhere
+	// still looks complete to a receiver that is told "end of stream"
+	var noContent model.Tree
+	for k := 0; k < 24; k++ {
+		noContent = append(noContent, model.Entry{Path: fmt.Sprintf("d%02d", k), Type: "dir", Perm: 0755, Mtime: uniqueMtime()})
+		if k%3 == 0 {
+			noContent = append(noContent, model.Entry{Path: fmt.Sprintf("d%02d/l", k), Type: "symlink", Link: "..", Perm: 0777, Mtime: uniqueMtime()})
+		}
+	}
+	noContent.Sort()
 	out := []faultInput{
 		{Scenario: "small/empty", Src: small, CapS: 1, CapR: 1},
 		{Scenario: "small/dirty", Src: small, Dst: dirty, CapS: 0, CapR: 0},
 		{Scenario: "fanout300/slowdata", Src: fan, CapS: 32, CapR: 64, SlowData: 1000},
+		{Scenario: "noContent/dirsAndLinks", Src: noContent, CapS: 1, CapR: 1, OnlyKinds: []string{"S.cancelCall@send", "S.cancel@send", "R.cancelCall@recv", "walk", "S.send", "R.recv"}},
 		{Scenario: "dirfirst320/slowcallback", Src: dirFirst, CapS: 64, CapR: 64, CbDelayMS: 400, OnlyKinds: []string{"notify", "hasher"}},
 	}
 	if c.Thorough() {
